@@ -57,6 +57,20 @@ def family(tier):
         out.append((f"a1_persistent_same_attr_{''.join(map(str, sub))}",
                     dict(until=4, sims=[T("P"), T("A"), T("M", 1, **{"async": acts})],
                          conns=[dict(src="P", dst="A", sattr="po", dattr="mi"), aconn("A", "M")])))
+    # an event-based agent that a THIRD simulator triggers (it has no step of its own queued
+    # while A decides whether it may go on)
+    from .scenarios import E
+    for sub in ((0, 1, 2), (1,), (0, 2)):
+        acts = {str(k): [("set", "A.e", "mi"), ("gate", 0)] for k in sub}
+        out.append((f"a1_event_agent_{''.join(map(str, sub))}",
+                    dict(until=3, sims=[T("A"), T("Tr"), E("M", **{"async": acts})],
+                         conns=[dict(src="A", dst="M", **{"async": True}),     # no data pair at all
+                                dict(src="Tr", dst="M", sattr="po", dattr="ti")])))
+        out.append((f"a1_event_agent_startorder_{''.join(map(str, sub))}",
+                    dict(until=3, order=["A", "M", "Tr"],
+                         sims=[T("A"), T("Tr"), E("M", **{"async": acts})],
+                         conns=[dict(src="A", dst="M", **{"async": True}),
+                                dict(src="Tr", dst="M", sattr="po", dattr="ti")])))
     # negative cases
     out.append(("neg_no_flag", dict(
         until=2, sims=[T("A"), T("M", 1, **{"async": {"0": [("set", "A.e", "mi")],
